@@ -1,9 +1,10 @@
 import Driver.Proto
 import Driver.C09Xml
+import Driver.C09Css
 /-! driver handlers for property C09 (ops `model.*`, `spec.*`, `trig.*`) -/
 namespace Verif.Driver.C09
 open Verif Verif.Driver
 
-def handlers : List (String × Handler) := [] ++ C09Xml.handlers
+def handlers : List (String × Handler) := C09Xml.handlers ++ C09Css.handlers
 
 end Verif.Driver.C09
